@@ -324,8 +324,10 @@ class Check:
         if not goals:
             return True
         path = os.path.join(BUILD, f'IG_{self.pid}_{name}.v')
-        gens = sorted({g['gen'] for g in goals if isinstance(g, dict)})
-        lines = ['From Coq Require Import Reals List Bool.', 'From Interval Require Import Tactic.']
+        gens = sorted({g['gen'] for g in goals if isinstance(g, dict) and g.get('gen')})
+        lines = ['From Coq Require Import Reals List Bool Lra.', 'From Interval Require Import Tactic.']
+        for rq in sorted({g['require'] for g in goals if isinstance(g, dict) and g.get('require')}):
+            lines.append(rq)
         if gens:
             lines += ['From ND.lib Require Import Expr Tac.', 'From ND.gen Require Import ' + ' '.join(gens) + '.', 'Import ListNotations.']
         lines += ['Open Scope R_scope.', '']
@@ -336,7 +338,7 @@ class Check:
             if isinstance(g, dict):
                 norm.append((g['label'], g['goal'], g['value'], ''))
                 lines.append(f'Goal {g["goal"]}.')
-                lines.append('Proof. eval_corr_prepare. interval with (i_prec 90). Qed.')
+                lines.append(g.get('proof') or 'Proof. eval_corr_prepare. interval with (i_prec 90). Qed.')
             else:
                 (label, expr, val, tol) = g
                 norm.append(g)
